@@ -52,7 +52,14 @@ namespace BitSerializer::Convert::Detail
 			else
 			{
 				auto value = static_cast<TTarget>(sourceValue);
-				result = (static_cast<TSource>(value) == sourceValue) && !((value > 0 && sourceValue < 0) || (value < 0 && sourceValue > 0));
+				bool isInSourceRange = true;
+				if constexpr (std::is_floating_point_v<TTarget>)
+				{
+					// An integer can be rounded up to 2^N, casting such value back to the source type would be undefined behaviour
+					constexpr auto upperBound = static_cast<TTarget>(std::numeric_limits<TSource>::max() / 2 + 1) * 2;
+					isInSourceRange = value < upperBound;
+				}
+				result = isInSourceRange && (static_cast<TSource>(value) == sourceValue) && !((value > 0 && sourceValue < 0) || (value < 0 && sourceValue > 0));
 				if (result) {
 					targetValue = value;
 				}
